@@ -662,7 +662,8 @@ class Check:
         fl = [nm for nm, lt in order if lt in mir.FLOATS]
         if fl and len(fl) <= 64:
             big = Fraction(1.7976931348623157e308)
-            for pat in ([big], [-big], [big, Fraction(0)], [Fraction(0), big], [Fraction(2.0 ** -70)], [big, -big]):
+            tiny = Fraction(1, 2 ** 600)      # squares and products of these underflow to zero
+            for pat in ([big], [-big], [big, Fraction(0)], [Fraction(0), big], [Fraction(2.0 ** -70)], [big, -big], [tiny], [tiny, Fraction(0)], [Fraction(0), tiny], [tiny, -tiny]):
                 cand = {nm: first_model.get(nm) for nm, lt in order}
                 for i, nm in enumerate(fl):
                     cand[nm] = pat[i % len(pat)]
